@@ -367,7 +367,7 @@ def solve_main(objfun, x0, argsf, xl, xu, projections, npt, rhobeg, rhoend, maxf
                                                    save_poisedness=params("logging.save_poisedness"))
             # norm_J_error is square of Frobenius norm of chgJ
             diagnostic_info.update_interpolation_information(interp_error, ls_interp_cond_num, linalg_resid,
-                                                             sqrt(norm_J_error), LA.norm(gopt), LA.norm(d))
+                                                             sqrt(norm_J_error), np.linalg.norm(gopt), np.linalg.norm(d))
 
         if dnorm < tau * params("general.safety_step_thresh") * control.rho and not finished_growing and params("growing.safety.do_safety_step"):
             if do_logging:
